@@ -40,6 +40,11 @@ CLAIMED["C10"] = ("ovf-codec", "exploration",
   "Reference-built 2022 requests/responses/datagrams and VMess auth-ids/responses with generated timestamps (both sides of the 30 s / 120 s boundaries, extremes), type bytes, request-salt echoes, response bytes and keys are presented to the real decoders under a pinned clock; the accept/reject decision must equal the model in the property statement. Histories of repeated presentations at moving clock offsets are compared with a 'set of accepted salts' model; K concurrently presented copies must yield exactly one acceptance; the thorough tier replays a request 31 s of real time after acceptance. Exploration.",
   "Trusted: clock hook (pins aead_2022::now / vmess::now per thread), reference encoder. The machine's scheduler decides which interleavings the concurrent sub-check sees.", "DESIGN.md 5/C10")
 
+CLAIMED["C12"] = ("ovf-codec", "exploration",
+  "history-based property testing: an independent decoder recovers every (key, nonce) pair from what the real encoders emit over generated session histories; duplicates are violations; cross-process freshness and a bias screen",
+  "Generated histories of sessions and writes (both directions, TCP and UDP, up to >256 chunks) are encoded by the real codecs; the reference decoder only opens a unit if the implementation used exactly the expected (key, nonce), so a successful decode yields the multiset of pairs, which must be duplicate-free; per-session random fields (salts, session ids, VMess key, IV, connection nonce, auth-id) must be pairwise distinct; packet ids strictly increase and stop at exhaustion (hook starts a session below u64::MAX). Exploration; unpredictability is not claimed.",
+  "Trusted: reference decoder's key/nonce derivations; every compared random tuple carries >= 64 random bits so a chance collision in a run is < 1e-10.", "DESIGN.md 5/C12")
+
 PENDING = {}
 
 def main():
